@@ -3,7 +3,7 @@
 touched file, and asserts that none raises an alarm (exit 0 or exit 2 = undecided are both acceptable; exit 1 is a false alarm)"""
 import glob, os, subprocess, sys, re
 ROOT = os.path.dirname(os.path.dirname(os.path.abspath(__file__)))
-PROPS = {'h41': ['C15'], 'h42': ['C15'], 'h43': ['C19'], 'h44': ['C08'], 'h45': ['C20'], 'h46': ['C14'], 'h47': ['C06'], 'h48': ['C08'], 'h49': ['C08'], 'h50': ['C08'], 'h02': ['C01', 'C03'], 'h03': ['C09'], 'h04': ['C16'], 'h05': ['C19'], 'h06': ['C09'], 'h07': ['C04', 'C02'], 'h09': ['C14'],
+PROPS = {'h51': ['C09'], 'h52': ['C09', 'C14'], 'h53': ['C03'], 'h54': ['C02', 'C12'], 'h55': ['C09', 'C15'], 'h56': ['C08'], 'h57': ['C14'], 'h58': ['C14', 'C02'], 'h41': ['C15'], 'h42': ['C15'], 'h43': ['C19'], 'h44': ['C08'], 'h45': ['C20'], 'h46': ['C14'], 'h47': ['C06'], 'h48': ['C08'], 'h49': ['C08'], 'h50': ['C08'], 'h02': ['C01', 'C03'], 'h03': ['C09'], 'h04': ['C16'], 'h05': ['C19'], 'h06': ['C09'], 'h07': ['C04', 'C02'], 'h09': ['C14'],
          'h10': ['C02'], 'h11': ['C02', 'C05'], 'h12': ['C16'], 'h13': ['C02'], 'h14': ['C03', 'C05'], 'h15': ['C19'], 'h16': ['C17'], 'h17': ['C16'], 'h18': ['C01', 'C06'], 'h19': ['C04', 'C12'], 'h20': ['C01', 'C07'], 'h21': ['C09'], 'h22': ['C05'], 'h23': ['C14'], 'h24': ['C08', 'C02'], 'h25': ['C20'], 'h26': ['C20'], 'h27': ['C20'], 'h28': ['C20'], 'h29': ['C20'], 'h30': ['C20'], 'h31': ['C15'], 'h32': ['C15'], 'h33': ['C15'], 'h34': ['C09', 'C14'], 'h35': ['C19'], 'h36': ['C09', 'C02'], 'h37': ['C07'], 'h38': ['C07'], 'h39': ['C02'], 'h40': ['C01']}
 bad = 0
 rows = []
